@@ -110,7 +110,11 @@ type Endpoint struct {
 	wdl    time.Time
 	// OnWrite, if set, is called on the scheduler goroutine before a write is applied.
 	OnWrite func(w *simrt.World, b []byte)
-	Reads   int
+	// BeforeWrite, if set, is called in the writing task itself (inside the endpoint's Write, before
+	// the write is handed to the scheduler): code that may block or call back into the system under
+	// test belongs here, never in OnWrite.
+	BeforeWrite func(b []byte)
+	Reads       int
 	WritesN int
 }
 
@@ -139,6 +143,9 @@ func (e *Endpoint) Read(p []byte) (int, error) {
 }
 
 func (e *Endpoint) Write(p []byte) (int, error) {
+	if e.BeforeWrite != nil {
+		e.BeforeWrite(p)
+	}
 	return e.world().Park(&simrt.Req{Kind: simrt.KWrite, Res: e, Buf: p})
 }
 
